@@ -199,6 +199,17 @@ example : canTranspile (wEnv outDep) (exec (wEnv outDep) wWorld [.run false]) mB
     (wEnv outDep).loads (' ' :: (curHeader (wEnv outDep) wV1 false mB).toJson) = .ok (curHeader (wEnv outDep) wV1 false mB).toJsonVal :=
   ⟨by decide +kernel, fun _ _ h => h, w_loadsSound outDep wV1 (by simp [wVers]) false mB (by simp)⟩
 
+/-- The five compared header fields are computed from five pairwise DIFFERENT sources (read from `Py2Cpp.meta`,
+    `module_meta_factory` and `MetaHeader.__init__` on every run): the application version constant, the md5 of the module's own
+    file, the module path, the transpiler version constant and the transpiler's class name — in particular the two version
+    fields read two different constants, so a release that changes either one changes the header. -/
+theorem compared_inputs_distinct :
+    Generated.RunnerHeader.currentInputs.map (·.2) =
+      [['V', 'e', 'r', 's', 'i', 'o', 'n', 's', '.', 'a', 'p', 'p'], ['s', 'o', 'u', 'r', 'c', 'e', 's', '.', 'h', 'a', 's', 'h', '(', 'f', 'i', 'l', 'e', 'p', 'a', 't', 'h', ')'], ['m', 'o', 'd', 'u', 'l', 'e', '_', 'p', 'a', 't', 'h', '.', 'p', 'a', 't', 'h'], ['V', 'e', 'r', 's', 'i', 'o', 'n', 's', '.', 'p', 'y', '2', 'c', 'p', 'p'], ['t', 'o', '_', 'f', 'u', 'l', 'l', 'y', 'n', 'a', 'm', 'e', '(', 'P', 'y', '2', 'C', 'p', 'p', ')']] ∧
+    (Generated.RunnerHeader.currentInputs.map (·.2)).Nodup ∧
+    Generated.RunnerHeader.currentInputs.map (·.1) = Generated.RunnerHeader.comparedFields.map (Str.join ['.']) := by
+  decide +kernel
+
 /-- The shipped version constants (read from data/version.py) satisfy the non-emptiness the history theorems ask of a release. -/
 theorem shipped_versions_nonempty : VersNonEmpty [⟨Generated.RunnerHeader.versionsApp, Generated.RunnerHeader.versionsPy2cpp⟩] := by
   intro v hv
